@@ -1046,20 +1046,91 @@ def judgeC19 (ops : List OpRec) : List String :=
 
 /-! ### C05 -/
 
+structure J06 where
+  cluster : Cluster := {}
+  /-- specification view: node id ↦ latest advertised address -/
+  hosts : List (Int × Bytes) := []
+  /-- topic ↦ leader node id per partition, from the latest response mentioning the topic -/
+  topics : List (Bytes × List Int) := []
+  bootstrap : List Bytes := []
+  out : List String := []
+
+def J06.hostOfNode (s : J06) (n : Int) : Option Bytes := (s.hosts.find? (·.1 == n)).map (·.2)
+
+def J06.view (s : J06) : String :=
+  let ts := sortBy (fun (a b : Bytes × List Int) => bytesLt a.1 b.1) s.topics
+  "ok" ++ String.join (ts.map fun (tp : Bytes × List Int) =>
+    " " ++ toHexTok tp.1 ++ "=" ++ joinWith "," ((List.range tp.2.length).zip tp.2 |>.map fun (x : Nat × Int) =>
+      match s.hostOfNode x.2 with
+      | some h => s!"{x.1}:{x.2}@{toHexTok h}"
+      | none => s!"{x.1}:~"))
+
+/-- merge one metadata response into the view -/
+def J06.merge (s : J06) (brokers : List BrokerMeta) (tms : List TopicMeta) : J06 :=
+  let hosts := brokers.foldl (fun (m : List (Int × Bytes)) (b : BrokerMeta) => (m.filter fun (x : Int × Bytes) => x.1 != b.nodeId) ++ [(b.nodeId, hostOf b)]) s.hosts
+  let topics := tms.foldl (fun (m : List (Bytes × List Int)) (t : TopicMeta) =>
+    -- partition ids of a well-formed response are 0..n-1 in some order: place each leader at its id
+    let n := t.parts.length
+    let leaders : List Int := (List.range n).map fun (i : Nat) =>
+      match t.parts.reverse.find? (fun (p : PartMeta) => p.id == (i : Int)) with
+      | some p => p.leader
+      | none => -1
+    (m.filter fun (x : Bytes × List Int) => x.1 != t.name) ++ [(t.name, leaders)]) s.topics
+  { s with hosts := hosts, topics := topics }
+
+/-- the address the view resolves a partition's leader to -/
+def J06.leaderHost (s : J06) (t : Bytes) (p : Int) : Option Bytes :=
+  ((s.topics.find? (fun (y : Bytes × List Int) => y.1 == t)).bind fun (y : Bytes × List Int) =>
+    if p < 0 then none else y.2[p.toNat]?).bind s.hostOfNode
+
+/-- the metadata views held by the scenario's objects (`c` the client, `k` the consumer's client, `p` the producer's),
+    followed over one operation: C06's specification of a view - the merge of the metadata replies received since the last
+    reset - moved along when a client is handed to a builder or taken back -/
+def trackViews (views : List (String × J06)) (op : OpRec) (bodies : List (Bytes × Request × RespBody)) : List (String × J06) :=
+  let get (k : String) : J06 := ((views.find? (fun (x : String × J06) => x.1 == k)).map (fun (x : String × J06) => x.2)).getD {}
+  let set (k : String) (v : J06) : List (String × J06) := (views.filter fun (x : String × J06) => x.1 != k) ++ [(k, v)]
+  let okRes := !op.result.startsWith "err" && op.result != "panic" && op.result != "noobj"
+  let cleared (v : J06) : J06 := { v with hosts := [], topics := [] }
+  let mergeAll (v : J06) : J06 := bodies.foldl (fun (v : J06) (x : Bytes × Request × RespBody) => match x.2.2 with
+    | RespBody.metadata bs ts => v.merge bs ts
+    | _ => v) v
+  match op.toks with
+  | ["client_new", _] => set "c" {}
+  | ["client_new"] => set "c" {}
+  | [tgt, "reset_metadata"] => set tgt (cleared (get tgt))
+  | [tgt, "load_metadata_all"] => set tgt (if okRes then mergeAll (cleared (get tgt)) else cleared (get tgt))
+  | tgt :: "load_metadata" :: _ => if okRes then set tgt (mergeAll (get tgt)) else views
+  | "producer_create" :: from_ :: _ =>
+    if op.result == "noobj" then views
+    else if from_ == "client" then (if okRes then set "p" (get "c") else views)
+    else if okRes then set "p" (mergeAll {}) else views
+  | "consumer_create" :: from_ :: _ =>
+    if op.result == "noobj" then views
+    else if from_ == "client" then (if okRes then set "k" (get "c") else views)
+    else if okRes then set "k" (mergeAll {}) else views
+  | ["producer_into_client"] => if okRes then set "c" (get "p") else views
+  | ["consumer_into_client"] => if okRes then set "c" (get "k") else views
+  | _ => views
+
 def kvStr (k v : Option Bytes) : String := s!"{Driver.optTok k}:{Driver.optTok v}"
 
 def judgeC05 (ops : List OpRec) : List String :=
-  let s := ops.foldl (fun (s : JSt) op =>
+  let r := ops.foldl (fun (acc : JSt × List (String × J06)) op =>
+    let s := acc.1
+    let views := acc.2
     let s := { s with cluster := applySetup s.cluster op.setup }
     let s := trackSettings s op
     let (c', bodies) := truthBodies s.cluster op
+    -- "known" and "current leader" are what the object's loaded metadata says (C06's view), not what the cluster has become
+    let viewOf (k : String) : J06 := ((views.find? (fun (x : String × J06) => x.1 == k)).map (fun (x : String × J06) => x.2)).getD {}
     let s := match op.toks with
-    | _ :: "produce" :: acks :: secs :: nanos :: args =>
+    | tgt :: "produce" :: acks :: secs :: nanos :: args =>
+      let view := viewOf tgt
       match parseProduceArgs args with
       | none => s
       | some pas =>
         let reqs : List (Bytes × Request) := framesOf op
-        let unknown := pas.any fun (a : Model.ProduceArg) => (leaderHost s.cluster a.topic a.partition).isNone
+        let unknown := pas.any fun (a : Model.ProduceArg) => (view.leaderHost a.topic a.partition).isNone
         if unknown then
           let s := if op.result == "err Kafka(3)" then s else viol s "C05-unknown-not-rejected" op s!"result `{op.result}`"
           if reqs.isEmpty then s else viol s "C05-sent-before-failing" op "bytes were sent although a record names an unknown topic or partition"
@@ -1068,7 +1139,7 @@ def judgeC05 (ops : List OpRec) : List String :=
           let keys : List (Bytes × Int) := pas.foldl (fun (acc : List (Bytes × Int)) (a : Model.ProduceArg) => if acc.contains (a.topic, a.partition) then acc else acc ++ [(a.topic, a.partition)]) []
           let want : List String := keys.map fun (t, p) =>
             let recs := (pas.filter fun (a : Model.ProduceArg) => a.topic == t && a.partition == p).map fun (a : Model.ProduceArg) => kvStr a.key a.value
-            s!"{toHexTok ((leaderHost s.cluster t p).getD [])}|{toHexTok t}|{p}|{recs}"
+            s!"{toHexTok ((view.leaderHost t p).getD [])}|{toHexTok t}|{p}|{recs}"
           let got : List String := reqs.flatMap fun (x : Bytes × Request) => match x.2.body with
             | ReqBody.produce _ _ ts => ts.flatMap fun (tp : Bytes × List (Int × Bytes)) => tp.2.map fun (ps : Int × Bytes) =>
                 s!"{toHexTok x.1}|{toHexTok tp.1}|{ps.1}|{(openSet ps.2).map fun (m : Msg) => kvStr m.key m.value}"
@@ -1113,12 +1184,13 @@ def judgeC05 (ops : List OpRec) : List String :=
       | some recs =>
         if recs.any (fun (r : Model.Record) => r.partition < 0) then s else
         let reqs : List (Bytes × Request) := framesOf op
-        let unknown := recs.any fun (r : Model.Record) => (leaderHost s.cluster r.topic r.partition).isNone
+        let view := viewOf "p"
+        let unknown := recs.any fun (r : Model.Record) => (view.leaderHost r.topic r.partition).isNone
         if unknown then s else
         let keys : List (Bytes × Int) := recs.foldl (fun (acc : List (Bytes × Int)) (r : Model.Record) => if acc.contains (r.topic, r.partition) then acc else acc ++ [(r.topic, r.partition)]) []
         let want : List String := keys.map fun (t, p) =>
           let rs := (recs.filter fun (r : Model.Record) => r.topic == t && r.partition == p).map fun (r : Model.Record) => kvStr (Model.toOption r.key) (Model.toOption r.value)
-          s!"{toHexTok ((leaderHost s.cluster t p).getD [])}|{toHexTok t}|{p}|{rs}"
+          s!"{toHexTok ((view.leaderHost t p).getD [])}|{toHexTok t}|{p}|{rs}"
         let got : List String := reqs.flatMap fun (x : Bytes × Request) => match x.2.body with
           | ReqBody.produce _ _ ts => ts.flatMap fun (tp : Bytes × List (Int × Bytes)) => tp.2.map fun (ps : Int × Bytes) =>
               s!"{toHexTok x.1}|{toHexTok tp.1}|{ps.1}|{(openSet ps.2).map fun (m : Msg) => kvStr m.key m.value}"
@@ -1131,42 +1203,10 @@ def judgeC05 (ops : List OpRec) : List String :=
               else viol s "C05-producer-acks-timeout" op s!"request carries acks {a} timeout {t}; the producer was built with acks {s.prodAcks} timeout {s.prodTimeout}"
           | _ => s) s
     | _ => s
-    { s with cluster := c' }) ({} : JSt)
-  s.out
+    ({ s with cluster := c' }, trackViews views op bodies)) (({} : JSt), [])
+  r.1.out
 
 /-! ### C06 -/
-
-structure J06 where
-  cluster : Cluster := {}
-  /-- specification view: node id ↦ latest advertised address -/
-  hosts : List (Int × Bytes) := []
-  /-- topic ↦ leader node id per partition, from the latest response mentioning the topic -/
-  topics : List (Bytes × List Int) := []
-  bootstrap : List Bytes := []
-  out : List String := []
-
-def J06.hostOfNode (s : J06) (n : Int) : Option Bytes := (s.hosts.find? (·.1 == n)).map (·.2)
-
-def J06.view (s : J06) : String :=
-  let ts := sortBy (fun (a b : Bytes × List Int) => bytesLt a.1 b.1) s.topics
-  "ok" ++ String.join (ts.map fun (tp : Bytes × List Int) =>
-    " " ++ toHexTok tp.1 ++ "=" ++ joinWith "," ((List.range tp.2.length).zip tp.2 |>.map fun (x : Nat × Int) =>
-      match s.hostOfNode x.2 with
-      | some h => s!"{x.1}:{x.2}@{toHexTok h}"
-      | none => s!"{x.1}:~"))
-
-/-- merge one metadata response into the view -/
-def J06.merge (s : J06) (brokers : List BrokerMeta) (tms : List TopicMeta) : J06 :=
-  let hosts := brokers.foldl (fun (m : List (Int × Bytes)) (b : BrokerMeta) => (m.filter fun (x : Int × Bytes) => x.1 != b.nodeId) ++ [(b.nodeId, hostOf b)]) s.hosts
-  let topics := tms.foldl (fun (m : List (Bytes × List Int)) (t : TopicMeta) =>
-    -- partition ids of a well-formed response are 0..n-1 in some order: place each leader at its id
-    let n := t.parts.length
-    let leaders : List Int := (List.range n).map fun (i : Nat) =>
-      match t.parts.reverse.find? (fun (p : PartMeta) => p.id == (i : Int)) with
-      | some p => p.leader
-      | none => -1
-    (m.filter fun (x : Bytes × List Int) => x.1 != t.name) ++ [(t.name, leaders)]) s.topics
-  { s with hosts := hosts, topics := topics }
 
 def judgeC06 (ops : List OpRec) : List String :=
   let v (s : J06) (sig : String) (op : OpRec) (d : String) : J06 :=
